@@ -36,6 +36,15 @@ CHECKS["C12"] = dict(
     design="5/C12",
 )
 
+CHECKS["C17"] = dict(
+    technique="bounded-exhaustive truth-table differential: every generated formula / range comprehension / sum in every rewriting context is evaluated on all integer valuations of a box before and after each rule and after format_code",
+    text="All 1- and 2-atom formulas (3-atom by stride / complete over x-atoms in thorough, plus Hypothesis-random larger ones) over comparisons with "
+         "constants 0..3 are placed in 10 contexts (return, if-return, if-assign, branch swap, early continue, while, comprehension filter) and run "
+         "through 11 rules and format_code; function tables over [-2,6]^2 must be identical. Range comprehensions and sums over ranges likewise.",
+    note="Integer semantics, == comparison; sums are compared on non-empty ranges only (known finding F-C17-01) and float rounding of closed forms is bucketed separately (F-C17-02).",
+    design="5/C17",
+)
+
 NOT_YET = {}
 
 
